@@ -104,12 +104,16 @@ def run_case(coro_fn, *args, **kwargs):
     """Run an async scenario on a fresh virtual loop; cancel and await everything left before closing."""
     loop = VLoop()
     asyncio.set_event_loop(loop)
+    stuck = False
     try:
         result = loop.run_until_complete(coro_fn(loop, *args, **kwargs))
         return result
+    except KeyboardInterrupt:
+        stuck = True  # the per-case guard fired: do not run the stuck code again for cleanup
+        raise
     finally:
         try:
-            for _ in range(3):
+            for _ in range(0 if stuck else 3):
                 pending = [t for t in asyncio.all_tasks(loop) if not t.done()]
                 if not pending:
                     break
